@@ -134,6 +134,17 @@ def impl(op, a):
     if op == 413:
         t = C.unpack(bytes(C(a[0][0], a[0][1]).pack()))
         return [[t.ccsds_days, t.ms_of_day]]
+    if op == 419:
+        before = D.datetime.now(tz=UTC)
+        t = [C.now, C.from_now, C.from_current_time][a[0][0] % 3]()
+        after = D.datetime.now(tz=UTC)
+        ms_total = lambda dt: (dt - D.datetime(1958, 1, 1, tzinfo=UTC)) // D.timedelta(milliseconds=1)   # noqa: E731
+        stamp = t.ccsds_days * MSPD + t.ms_of_day
+        in_window = ms_total(before) <= stamp <= ms_total(after)
+        normal = 0 <= t.ms_of_day < MSPD and 0 <= t.ccsds_days <= 65535 and list(t.pack()) == layout(t.ccsds_days, t.ms_of_day)
+        dtv = t.as_datetime()
+        views_ok = before <= dtv <= after and abs(t.as_unix_seconds() - dtv.timestamp()) < 1e-6 and (dt_us(dtv) // 1000 - (-4383) * MSPD) == stamp
+        return [[int(in_window), int(normal), int(views_ok)]]
     if op == 418:
         t = _make(a[0])
         out = views_any(t)
@@ -172,7 +183,7 @@ def impl(op, a):
 def views_any(t):
     """views of a live object; the datetime line is empty when the object has no _datetime yet"""
     try:
-        dt = [dt_us(t.as_datetime())]
+        dt = [dt_us(t.as_date_time() if t.ccsds_days % 2 else t.as_datetime())]    # as_date_time: deprecated alias
     except AttributeError:
         dt = []
     return [[t.ccsds_days, t.ms_of_day], fl(t.as_unix_seconds()), dt]
@@ -195,6 +206,8 @@ def _make(l):
         return C.from_unix_days(l[1], l[2])
     if k == 6:
         return C.from_datetime(EPOCH + D.timedelta(days=l[1], seconds=l[2], microseconds=l[3]))
+    if k == 7:
+        return C.from_date_time(EPOCH + D.timedelta(days=l[1], seconds=l[2], microseconds=l[3]))
     raise RuntimeError("bad constructor kind")
 
 
@@ -227,7 +240,8 @@ def _receivers(rng):
     ud, sod, us = rng.randrange(UD_MIN, UD_MAX + 1), rng.randrange(86400), rng.choice(USS + [rng.randrange(10 ** 6)])
     return [[0, d, ms], [1, d, ms], [0, 0, 0], [1, 0, 0], [1, 65535, MSPD - 1], [2], [3], [3, 0], [4] + layout(d, ms),
             [4] + layout(0, 0) + [1, 2], [4] + layout(65535, 2 ** 32 - 1), [5, d - 4383, ms], [5, -4383, 0], [6, ud, sod, us],
-            [6, -4383, 0, 0], [1, rng.choice(DAYS), rng.choice(MSS)], [0, rng.choice(DAYS), rng.choice(MSS)]]
+            [6, -4383, 0, 0], [1, rng.choice(DAYS), rng.choice(MSS)], [0, rng.choice(DAYS), rng.choice(MSS)],
+            [7, ud, sod, us], [7, rng.choice(UDS), rng.choice(SODS), rng.choice(USS)]]
 
 
 def _made_fields(make):
@@ -383,6 +397,8 @@ def streams(tier, rng):
         for first in ([1] + same, [2] + same, [1] + other, [2] + other + [rng.randrange(256)] * rng.choice([0, 1, 600]), [4],
                       [1] + same[:6], [1, 0x50] + same[1:], [1, 0x44] + same[1:], [3, 0, 0, 0], [3, 0, 1, 0], [5]):
             cases.append((418, [make, first, [5], [4], [1] + other, [1] + other, [3, 0, 0, 999], [4]]))
+    for i in range(30):          # now() and its two deprecated aliases: invariants against the clock reading
+        cases.append((419, [[i]]))
     yield "exh_receivers_x_content", "exact", cases
     cases = []
     for _ in range(10000 if big else 1500):
@@ -578,6 +594,11 @@ def oracle(case, ires, sres):
         if ires[4] != [7]:
             return ("C14/CdsShortTimestamp.len_packed", "%s" % (ires,))
         return check_views("C14/CdsShortTimestamp.__add__", [total // MSPD, total % MSPD], ires)
+    if op == 419:
+        if err or ires[1] != [1, 1, 1]:
+            return ("C14/CdsShortTimestamp.now/clock-reading", "now()/from_now()/from_current_time(): (stamp within the clock window, "
+                    "normalised and packable, views are the reading) = %s" % (ires,))
+        return None
     if op == 418:
         return _oracle_live(a, ires)
     if op in (406, 416):
@@ -653,7 +674,7 @@ def _oracle_live(a, ires):
         return ("C14/adapter/history-shape", "%d lines for %d ops" % (len(ires), len(ops)))
     cur = list(_made_fields(make))
     prev = ires[1:4]
-    if make[0] == 6:
+    if make[0] in (6, 7):
         if UD_MIN <= make[1] <= UD_MAX:
             tot_us = (make[1] * 86400 + make[2]) * 10 ** 6 + make[3]
             if prev[0] != cur or prev[2] != [tot_us]:
